@@ -449,6 +449,10 @@ def explore(module, hname, cfg, max_paths=200000, max_seconds=3600, timeout_ms=1
             st['unsupported'] += 1
             if len(st['unsupported_msgs']) < 5:
                 st['unsupported_msgs'].append(repr(e)[:200] + ' @ ' + _where())
+            if getattr(mod, 'DEFER_ORACLE_UNSUPPORTED', False) and _where().split(':')[0].startswith('C') and 'polynomial degree' in str(e):
+                # the ORACLE's own arithmetic left the decidable fragment (bt's did not): the path's model is handed to the concrete replay, which
+                # evaluates the same oracle on real floats (a sampled verdict for this path, counted separately)
+                st['ended']['deferred-to-concrete'] = st['ended'].get('deferred-to-concrete', 0) + 1
         except Abort as e:
             st['unsupported'] += 1
             if len(st['unsupported_msgs']) < 5:
